@@ -3,6 +3,7 @@ package props
 import (
 	"fmt"
 	"go/types"
+	"os"
 	"strings"
 
 	"golang.org/x/tools/go/ssa"
@@ -471,9 +472,37 @@ func hasRejectingCmp(c *Ctx, f *ssa.Function, m func(op string, x, y *ir.Expr) b
 				continue
 			}
 			e := ctx.Apply(w.ExprOf(iff.Cond))
+			// a table-driven loop (for _, fld := range []check{{value: msg.A}, {value: msg.B}} { if len(fld.value) > max ... })
+			// compares, in some iteration, each of the listed values: the comparison counts for the alternative asked
+			// about when the loop performs it in every iteration and leaves early only by rejecting
+			var cands []*ir.Expr
+			cands = append(cands, e)
+			if os.Getenv("MCDEBUG") == "cmp" {
+				fmt.Fprintln(os.Stderr, "cmp", fn(g), e.String(), "| unrolled:", ir.UnrollLists(e).String(), forAllLoop(c, g, b))
+			}
+			if u := ir.UnrollLists(e); u != e && forAllLoop(c, g, b) {
+				var phi *ir.Expr
+				u.Walk(func(z *ir.Expr) bool {
+					if phi == nil && z.Op == "phi" {
+						phi = z
+					}
+					return phi == nil
+				})
+				if phi != nil {
+					for _, a := range phi.Args {
+						cands = append(cands, ir.Replace(u, phi, a))
+					}
+				}
+			}
 			for si, pol := range []bool{true, false} {
-				op, x, y, ok := ir.Pred{E: e, Pol: pol}.Cmp()
-				if !ok || !m(op, x, y) {
+				matched := false
+				for _, ce := range cands {
+					if op, x, y, ok := (ir.Pred{E: ce, Pol: pol}).Cmp(); ok && m(op, x, y) {
+						matched = true
+						break
+					}
+				}
+				if !matched {
 					continue
 				}
 				if ctx == root {
@@ -661,4 +690,48 @@ func fieldRule(c *Ctx, m, field string, t types.Type, v *ssa.Function) {
 		r.Require(empty, "A7.validate-rule", key+"|non-empty", w.Pos(v.Pos()), "the validator of "+key+" rejects an empty signer list", "no rejecting len == 0 comparison")
 		r.Require(elem, "A7.validate-rule", key+"|well-formed", w.Pos(v.Pos()), "the validator of "+key+" rejects every element of strings.Split(value, \",\") that is not a valid bech32 address — every iteration, no element skipped (Validate counts the same split elements against MinAccepts)", "no rejecting AccAddressFromBech32 check that every loop iteration passes")
 	}
+}
+
+// forAllLoop: block b lies in a loop that executes b in every iteration (b dominates every back edge of its
+// innermost loop) and leaves the loop, other than through the loop condition in the header, only into
+// branches that cannot reach a success return.
+func forAllLoop(c *Ctx, g *ssa.Function, b *ssa.BasicBlock) bool {
+	reaches := func(from, to *ssa.BasicBlock) bool {
+		return len(to.Instrs) > 0 && ir.ReachesFrom(g, from, 0, to.Instrs[0], ir.Cut{})
+	}
+	var hdr *ssa.BasicBlock
+	for _, h := range g.Blocks {
+		if !h.Dominates(b) || h == b && len(h.Preds) < 2 {
+			continue
+		}
+		back := false
+		for _, p := range h.Preds {
+			if h.Dominates(p) && (p == b || reaches(b, p)) {
+				back = true
+			}
+		}
+		if back && (hdr == nil || hdr.Dominates(h)) {
+			hdr = h
+		}
+	}
+	if hdr == nil {
+		return false
+	}
+	inLoop := func(x *ssa.BasicBlock) bool { return hdr.Dominates(x) && (x == hdr || reaches(x, hdr)) }
+	for _, p := range hdr.Preds {
+		if hdr.Dominates(p) && !b.Dominates(p) {
+			return false // an iteration can finish without passing b (continue / a branch around the check)
+		}
+	}
+	for _, x := range g.Blocks {
+		if !inLoop(x) || x == hdr {
+			continue
+		}
+		for _, s := range x.Succs {
+			if !inLoop(s) && !onlyErrorsFrom(c, g, s) {
+				return false // break, or a success return from inside the loop
+			}
+		}
+	}
+	return true
 }
